@@ -345,6 +345,121 @@ impl<'a> Suite<'a> {
 		self.rep.exhaustive.push("certificates issued from a parsed request: every subject algorithm x every issuer of the pool x 6 settings of the parsed parameters (quick: a rotating third)".into());
 	}
 
+	/// distribution-point URIs as configuration files hand them over: white space before, after and
+	/// inside, a line ending, empty — written as given or refused, in the issuing distribution point
+	/// of a revocation list and in the CRL distribution points of a certificate
+	pub fn uri_shape_sweep(&mut self) {
+		let uris = [" http://crl.example/a.crl", "http://crl.example/a.crl ", "http://crl.example/a.crl\n", "\thttp://crl.example/a.crl", "http://crl.example/a b.crl", "\r\nhttp://crl.example/a.crl\r\n", " ", "", "HTTP://CRL.EXAMPLE/A.CRL", "http://crl.example/a.crl#frag", "ldap://crl.example/cn=x?certificateRevocationList;binary"];
+		for u in uris {
+			let mut c = self.base_crl();
+			c.idp = Some((vec![u.to_string()], None));
+			self.crl(&c, 0);
+			let mut c = self.base_crl();
+			c.idp = Some((vec!["http://crl.example/first.crl".to_string(), u.to_string()], None));
+			self.crl(&c, 0);
+			let mut p = PCert::default_like();
+			if cfg!(feature = "nocrypto") {
+				p.serial = Some(vec![5]);
+				p.kid = Kid::Pre(vec![1; 20]);
+			}
+			p.crldp = vec![vec![u.to_string()]];
+			self.cert(&p, None, "ed25519", false);
+		}
+		self.rep.exhaustive.push("distribution-point URIs with white space before / after / inside, line endings, empty, upper case, fragment, LDAP form: issuing distribution point (alone and second) and certificate CRL distribution points".into());
+	}
+
+	/// artefacts on both sides of 64 KiB (where a length needs a third octet): one certificate
+	/// with a large caller-supplied extension, one request with a large attribute and one with
+	/// thousands of alternative names, one revocation list with thousands of entries
+	pub fn large_artefacts(&mut self) {
+		let octets = |n: usize| { let mut v = vec![0x04]; v.extend(der_len(n)); v.extend(std::iter::repeat(0x5a).take(n)); v };
+		for n in [65_000usize, 65_500, 70_000] {
+			let mut p = PCert::default_like();
+			if cfg!(feature = "nocrypto") {
+				p.serial = Some(vec![5]);
+				p.kid = Kid::Pre(vec![1; 20]);
+			}
+			p.custom = vec![Custom { oid: vec![1, 3, 6, 1, 4, 1, 99999, 7], critical: false, content: octets(n) }];
+			self.rep.count("large_artefacts");
+			self.cert(&p, None, "ed25519", false);
+			self.cert(&p, Some(0), "ed25519", false);
+			let q = PCert::default_like();
+			let mut set = vec![0x31];
+			set.extend(der_len(octets(n).len()));
+			set.extend(octets(n));
+			self.csr(&q, &[PAttr { oid: &[1, 3, 6, 1, 4, 1, 99999, 8], values: set }], "ed25519");
+		}
+		let mut q = PCert::default_like();
+		q.san = (0..3000).map(|i| San::Dns(format!("host{}.example.com", i))).collect();
+		self.csr(&q, &[], "ed25519");
+		let mut c = self.base_crl();
+		c.revoked = (0..4000u32).map(|i| PRevoked { serial: vec![1, (i >> 8) as u8, i as u8], time: Dt::ymd(2024, 1, 1), reason: None, invalidity: None }).collect();
+		self.crl(&c, 0);
+		self.rep.exhaustive.push("artefacts of 65 000 / 65 500 / 70 000 octets and more: a certificate with a large extension (self-signed and issued), requests with a large attribute and with 3 000 alternative names, a revocation list with 4 000 entries".into());
+	}
+
+	/// the automatic serial number (the first 20 octets of the SHA-256 digest of the subject's key
+	/// bits, top bit cleared) at the edges of the INTEGER rules: key bits are searched whose digest
+	/// starts with 00 / 80 / 7f / ff / 01, each followed by an octet below and at or above 0x80, and
+	/// with two zero octets — a positive INTEGER of at most 20 octets whatever the key
+	#[cfg(not(feature = "nocrypto"))]
+	pub fn auto_serial_edges(&mut self) {
+		use std::panic::{catch_unwind, AssertUnwindSafe};
+		let mut wanted: Vec<(String, Box<dyn Fn(&[u8]) -> bool>)> = Vec::new();
+		for first in [0x00u8, 0x80, 0x7f, 0xff, 0x01, 0x81] {
+			wanted.push((format!("{:02x}-then-low", first), Box::new(move |d: &[u8]| d[0] == first && d[1] < 0x80)));
+			wanted.push((format!("{:02x}-then-high", first), Box::new(move |d: &[u8]| d[0] == first && d[1] >= 0x80)));
+		}
+		wanted.push(("00-00".into(), Box::new(|d: &[u8]| d[0] & 0x7f == 0 && d[1] == 0)));
+		let mut found: Vec<(String, Vec<u8>)> = Vec::new();
+		let mut counter: u64 = self.ctx.seed;
+		let budget = if self.ctx.thorough { 3_000_000 } else { 400_000 };
+		for _ in 0..budget {
+			if wanted.is_empty() {
+				break;
+			}
+			counter = counter.wrapping_mul(6364136223846793005).wrapping_add(1442695040888963407);
+			let mut key = Vec::with_capacity(32);
+			for i in 0..4u64 {
+				key.extend_from_slice(&(counter ^ (i.wrapping_mul(0x9e3779b97f4a7c15))).to_be_bytes());
+			}
+			let d = ring::digest::digest(&ring::digest::SHA256, &key);
+			if let Some(i) = wanted.iter().position(|(_, f)| f(d.as_ref())) {
+				let (name, _) = wanted.remove(i);
+				found.push((name, key));
+			}
+		}
+		self.rep.add("auto_serial_edge_classes_found", found.len() as u64);
+		let mut p = PCert::default_like();
+		p.serial = None;
+		for (name, key) in found {
+			let mut enc = vec![0x30, 0x2a, 0x30, 0x05, 0x06, 0x03, 0x2b, 0x65, 0x70, 0x03, 0x21, 0x00];
+			enc.extend_from_slice(&key);
+			let Ok(Ok(spki)) = catch_unwind(AssertUnwindSafe(|| SubjectPublicKeyInfo::from_der(&enc))) else { continue };
+			self.rep.case(&format!("auto-serial digest {} key {}", name, hex(&key)), true);
+			self.rep.count("auto_serial_edge_certificates");
+			let iss = &self.issuers[0];
+			let r = catch_unwind(AssertUnwindSafe(|| p.real().unwrap().signed_by(&spki, &iss.cert, &iss.key)));
+			let (real, cert, _der, _pm) = outcome(r, |c: &Certificate| c.der().to_vec());
+			let req = format!("cert {} {} {} {}", cfg_name(), p.sexp(), key_sexp(&spki), issuer_sexp(&iss.p, &*iss.key));
+			let model = self.drv.ask(&req);
+			if real != model {
+				self.rep.disagree(&format!("{}:cert", self.prop), "model and implementation differ on a certificate with an automatic serial number", format!("key bits (digest class {}): {}\nrequest: {}\nreal:  {}\nmodel: {}", name, hex(&key), req, real, model));
+			}
+			let Some(cert) = cert else { continue };
+			let line = format!("spec-cert {} {} {} {}", p.sexp(), key_sexp(&spki), issuer_sexp(&iss.p, &*iss.key), hex(cert.der()));
+			let resp = self.drv.ask(&line);
+			for clause in Self::parse_fail(&resp) {
+				if self.mine(&clause) {
+					self.rep.violate(&format!("{}:automatic-serial", clause), "a certificate with an automatic serial number violates a specification clause", format!("key bits whose SHA-256 digest is of class {}: {}
+spec-request: {}
+spec-answer: {}", name, hex(&key), line, resp));
+				}
+			}
+		}
+		self.rep.exhaustive.push("automatic serial numbers for subject keys searched so that the SHA-256 digest of their bits starts with 00 / 80 / 7f / ff / 01 / 81 followed by an octet below and at or above 0x80, and with two zero octets".into());
+	}
+
 	/// material that came in through a parser and goes out again in an artefact: public keys read
 	/// from SubjectPublicKeyInfo encodings a BER-tolerant reader accepts, and CA certificates whose
 	/// names sweep every string tag and content.  Whatever is accepted has to be written as DER.
@@ -1609,6 +1724,7 @@ pub fn run(ctx: &mut Ctx, prop: &str) -> Report {
 			s.ca_sweep();
 			s.prefix_sweep();
 			s.kid_sweep();
+			s.uri_shape_sweep();
 			s.api_surface();
 			s.ctor_sweep();
 			#[cfg(not(feature = "nocrypto"))]
@@ -1624,6 +1740,8 @@ pub fn run(ctx: &mut Ctx, prop: &str) -> Report {
 			s.serial_sweep();
 			s.csr_attr_sweep();
 			s.crl_enum_sweep();
+			s.large_artefacts();
+			s.malformed_stream(n(60, 2000));
 			s.string_kind_sweep();
 			s.time_edge_sweep();
 			#[cfg(not(feature = "nocrypto"))]
@@ -1639,6 +1757,8 @@ pub fn run(ctx: &mut Ctx, prop: &str) -> Report {
 			s.tie_crl = true;
 			s.single_field_sweep();
 			s.auto_serial_sweep(n(400, 4000));
+			#[cfg(not(feature = "nocrypto"))]
+			s.auto_serial_edges();
 			s.crl_enum_sweep();
 			s.csr_attr_sweep();
 			s.random_certs(n(300, 15000));
@@ -1658,6 +1778,8 @@ pub fn run(ctx: &mut Ctx, prop: &str) -> Report {
 			s.crl_enum_sweep();
 			s.crl_issuer_ku_sweep();
 			s.serial_sweep();
+			s.ctor_serial();
+			s.uri_shape_sweep();
 			s.time_edge_sweep();
 			s.random_crls(n(800, 30000));
 		},
